@@ -208,9 +208,20 @@ def main(tier, replay=None):
     known = known_findings(PROP)
 
     def is_known(o, sample):
+        """A violation sample is a known finding iff an entry of known_findings.json (property C08, kind open) matches it:
+        every key of `match` equals the sample's value (`file_libraries_min`: the sample's file is mapped to at least that
+        many libraries)."""
         for k in known:
+            if k.get("kind") != "open":
+                continue
             m = k.get("match", {})
-            if all(str(sample.get(a)) == str(b) or (a == "entity_prefix" and str(sample.get("entity", "")).startswith(b)) for a, b in m.items()):
+            ok = bool(m)
+            for a, b in m.items():
+                if a == "file_libraries_min":
+                    ok = ok and int(sample.get("file_libraries", 1)) >= int(b)
+                else:
+                    ok = ok and sample.get(a) == b
+            if ok:
                 return k
         return None
 
@@ -218,20 +229,26 @@ def main(tier, replay=None):
              "reference_positions": 0, "inside_cursors": 0, "with_guards": 0, "ref_guards": 0, "unresolved_refs": 0,
              "end_identifiers": 0, "wf_true": 0, "wf_false": 0, "extraction_runs": 0, "kinds": {}, "decl_kinds": {}}
     nviol = 0
+    known_projects = set()
     # ---- oracle verdicts ----
     for o in oracle:
         stats["projects"] += 1
         kind = o["kind"].split(":")[0]
         stats["kinds"][kind] = stats["kinds"].get(kind, 0) + 1
-        if "panic" in o or "extract_error" in o:
-            # a panic inside analysis/search is C03's business; an extraction failure means the Searcher protocol
-            # no longer has the shape the model assumes
-            what = "event extraction through the Searcher API failed: %s" % o.get("extract_error") if "extract_error" in o else \
-                "the implementation panicked while the project was analysed or searched: %s" % o.get("panic")
+        if "panic" in o:
+            # a panic while a project is analysed or queried is property C03's business (totality), not a C08 verdict
+            stats["panicked_projects"] = stats.get("panicked_projects", 0) + 1
+            stats.setdefault("panic_messages", [])
+            if len(stats["panic_messages"]) < 5:
+                stats["panic_messages"].append("%s (%s): %s" % (o["name"], o["kind"], str(o.get("panic"))[:200]))
+            continue
+        if "extract_error" in o:
+            # the Searcher protocol no longer has the shape the model assumes
             nviol += 1
             if nviol <= 8:
-                res.violation(what, {"kind": "input" if "panic" in o else "correspondence", "project": proj_by_idx[o["idx"]],
-                                     "replay_cmd": "./check C08 --replay <this file>"}, no_failing_input="extract_error" in o)
+                res.violation("event extraction through the Searcher API failed in project %s: %s" % (o["name"], o.get("extract_error")),
+                              {"kind": "correspondence", "correspondence": "Searcher protocol (guard ranges of Finished(NotFound) answers) vs RH.Search.Events",
+                               "project": proj_by_idx[o["idx"]], "replay_cmd": "./check C08 --replay <this file>"}, no_failing_input=True)
             continue
         for k in ("events", "reference_positions", "inside_cursors", "with_guards", "ref_guards", "unresolved_refs", "end_identifiers", "extraction_runs"):
             stats[k] += o.get(k, 0)
@@ -247,20 +264,31 @@ def main(tier, replay=None):
         v = o["violations"]
         if v["clause1"] + v["clause2"] + v["clause3"] > 0:
             unknown = []
+            kf = None
             for s in o["violation_samples"]:
                 k = is_known(o, s)
                 if k:
-                    res.known_finding("%s: clause %s, project %s (%s), file %s pos %s: %s" % (k["id"], s["clause"], o["name"], o["kind"], s["file"], s["pos"], s["text"]))
+                    kf = kf or (k, s)
                 else:
                     unknown.append(s)
-            if unknown:
+            # all violations beyond the homonym-copy ones must be reported even if the samples list is short
+            n_unknown = v["clause1"] + v["clause3"] + v["clause2"] - (o.get("clause2_homonym_copies", 0) if kf else 0)
+            if kf:
+                k, s = kf
+                known_projects.add(o["idx"])
+                stats["known_finding_projects"] = stats.get("known_finding_projects", 0) + 1
+                res.known_finding("%s clause 2: project %s (%s), file %s mapped to %s libraries, find_all_references(%s) returns position %s "
+                                  "but the cursor %s resolves to the other library's copy `%s` (%d such cursors)" % (
+                                      k.get("id"), o["name"], o["kind"], s["file"], s.get("file_libraries"), s["entity"], s["pos"], s["cursor"],
+                                      s["cursor_resolves_to"], o.get("clause2_homonym_copies", 0)))
+            if unknown or n_unknown > 0:
                 nviol += 1
                 if nviol <= 8:
-                    s = unknown[0]
+                    s = unknown[0] if unknown else o["violation_samples"][0]
                     res.violation("clause %d violated by the implementation in project %s (%s): %s [file %s, position %s, %s]" % (
                         s["clause"], o["name"], o["kind"], s["text"], s["file"], s["pos"],
-                        ", ".join("%s=%s" % (a, s[a]) for a in ("cursor", "entity", "cursor_resolves_to", "declaration", "identifier", "text_under_position") if a in s)),
-                        {"kind": "input", "project": proj_by_idx[o["idx"]], "violations": o["violations"], "samples": unknown,
+                        ", ".join("%s=%s" % (a, s[a]) for a in ("cursor", "entity", "cursor_resolves_to", "declaration", "identifier", "text_under_position", "file_libraries") if a in s)),
+                        {"kind": "input", "project": proj_by_idx[o["idx"]], "violations": o["violations"], "samples": unknown or o["violation_samples"],
                          "replay_cmd": "./check C08 --replay <this file>"})
     # ---- correspondence: model vs implementation ----
     ipos = 0
@@ -315,7 +343,7 @@ def main(tier, replay=None):
                      "replay_cmd": "./check C08 --replay <this file>"}, no_failing_input=True)
         # wf false without a concrete failing cursor: the checker theorem does not cover this project
         kline = [m for m in mod if m.startswith("K ")]
-        if kline and kline[0].split(" ")[1] == "0" and o["violations"]["clause2"] == 0 and not first:
+        if kline and kline[0].split(" ")[1] == "0" and o["violations"]["clause2"] == 0 and not first and idx not in known_projects:
             nviol += 1
             if nviol <= 8:
                 res.violation("the event forest of project %s (%s) is not well formed (%s): positions reported by the Search implementation "
@@ -326,6 +354,15 @@ def main(tier, replay=None):
                               no_failing_input=True)
     if not replay:
         coq_cross_check(res, projs, model)
+    if not os.environ.get("C08_KEEP"):
+        # the replay files carry the projects; drop the bulky intermediate files (disk is limited)
+        import shutil
+        shutil.rmtree(os.path.join(out, "proj"), ignore_errors=True)
+        for fn in ("cases.txt", "impl.txt"):
+            try:
+                os.unlink(os.path.join(out, fn))
+            except OSError:
+                pass
     res.coverage.update(stats)
     res.coverage["exhaustive"] = False
     res.coverage["rule"] = (
